@@ -31,7 +31,13 @@ var bubbleTag = regexp.MustCompile(`synctest bubble \d+`)
 // It may be called from many goroutines concurrently.
 func Bubble(t *testing.T, fn func(t *testing.T)) BubbleResult {
 	done := make(chan BubbleResult, 1)
-	go func() { done <- bubble(t, fn) }()
+	go func() {
+		res := BubbleResult{Panic: "the bubble's goroutine exited without returning (t.FailNow / runtime.Goexit inside the bubble, e.g. after a race detector report)"}
+		// a Goexit (synctest.Test calls t.FailNow when the race detector reported inside the bubble)
+		// must not look like a wedge: always deliver a result
+		defer func() { done <- res }()
+		res = bubble(t, fn)
+	}()
 	select {
 	case r := <-done:
 		return r
